@@ -144,6 +144,9 @@ mod platform;
 mod range;
 mod serving;
 
+#[cfg(feature = "verif-hooks")]
+pub mod verif;
+
 pub use crate::body::Body;
 pub use crate::file::ChunkedReadFile;
 pub use crate::gzip::BodyWriter;
